@@ -217,7 +217,7 @@ def run_impl(exe, cases, workdir, tag, timeout=1800):
     return results
 
 
-def run_model(cases, workdir, tag):
+def _run_model_chunk(cases, workdir, tag):
     cf = os.path.join(workdir, "mcases_%s.txt" % tag)
     with open(cf, "w") as f:
         for c in cases:
@@ -236,6 +236,22 @@ def run_model(cases, workdir, tag):
         out.append(tuple(parts[:3]))
     while len(out) < len(cases):
         out.append(("MODEL-CRASH " + p.stderr[-200:].replace("\n", " "), "MODEL-CRASH", "-"))
+    return out
+
+
+def run_model(cases, workdir, tag, jobs=12):
+    """run the extracted model over the cases (cases are independent: split over processes, order kept)"""
+    if len(cases) < 64:
+        return _run_model_chunk(cases, workdir, tag)
+    # interleaved split so that expensive cases (sweeps) spread over the workers
+    idx = [list(range(j, len(cases), jobs)) for j in range(jobs)]
+    with concurrent.futures.ThreadPoolExecutor(max_workers=jobs) as ex:
+        futs = [ex.submit(_run_model_chunk, [cases[i] for i in ix], workdir, "%s_%d" % (tag, j)) for j, ix in enumerate(idx)]
+        res = [f.result() for f in futs]
+    out = [None] * len(cases)
+    for ix, r in zip(idx, res):
+        for i, x in zip(ix, r):
+            out[i] = x
     return out
 
 
